@@ -1297,3 +1297,10 @@ mod tests {
         assert_eq!(tinfo.channel(), TokenChannel::COMMENT);
     }
 }
+
+#[cfg(kani)]
+pub(crate) mod verif {
+    #[allow(clippy::wildcard_imports)]
+    use super::*;
+    include!(concat!(env!("SAS_LEXER_VERIF_DIR"), "/harness/buffer.rs"));
+}
